@@ -162,8 +162,10 @@ def run_actions(ctx, cases, label=""):
 def check_c49(ctx):
     q = ctx.tier == "quick"
     defs, examples = doc_constants()
-    runs = [{"KEYS": '{"a", "b"}', "MAXPAIRS": 3}, {"KEYS": '{"a", "b", "ab"}', "MAXPAIRS": 2}] if q else \
-           [{"KEYS": '{"a", "b", "ab", "ba"}', "MAXPAIRS": 3}]
+    runs = [{"KEYS": '{"a", "b"}', "MAXPAIRS": 3}, {"KEYS": '{"a", "b", "ab"}', "MAXPAIRS": 2},
+            {"KEYS": '{"a", "u n", "u+n", "u%n"}', "MAXPAIRS": 2}] if q else \
+           [{"KEYS": '{"a", "b", "ab", "ba"}', "MAXPAIRS": 3},
+            {"KEYS": '{"a", "b", "u n", "u+n", "u%n", "u&n", "u=n"}', "MAXPAIRS": 2}]
     cases = []
     seen = set()
     for r in runs:
@@ -187,7 +189,7 @@ def check_c49(ctx):
     ctx.cov["rule"] = ("cases = every (action, parameter class, request shape) state of Actions.tla: all documented "
                        "rewrite/header/redirect actions of docs/en_us/modules (action lists and variables read from "
                        "the documents at run time), queries = all ordered lists of <= MaxPairs pairs over Keys x "
-                       "{plain, percent-encoded key} x {k=1, k=a, k without '='} (keys ab / ba contain a and b), hosts/paths/header multiplicities "
+                       "{plain, percent-encoded key} x {k=1, k=a, k without '='} (keys ab / ba contain a and b; keys 'u n', 'u+n', 'u%n', 'u&n', 'u=n' in every escaped spelling incl. '+', also as configured parameters), hosts/paths/header multiplicities "
                        "as listed in the spec, plus the documents' own example rule files; each is loaded through the "
                        "module's reload handler and executed by the module's registered filters on a request parsed "
                        "by bfe_http; distinct = distinct decisive (non-gray) cases.")
